@@ -29,7 +29,7 @@ NextR == \\/ (\\E c \\in Clients : ClientStep(c)) /\\ steps' = Append(steps, Ste
          \\/ (\\E i \\in 1..MaxFut : TaskStep(i)) /\\ steps' = Append(steps, StepOf)
 Bad == IF ~NoInternalError THEN "InternalError" ELSE IF ~MemNonNeg THEN "MemNegative"
        ELSE IF ~Accounting THEN "Accounting" ELSE IF ~Linearizable THEN "NotLinearizable" ELSE "ok"
-EmitR == AllDone => PrintT(ToJson([cf |-> cf, steps |-> steps, hist |-> hist, bad |-> Bad]))
+EmitR == AllDone => PrintT(ToJson([cf |-> cf, steps |-> steps, hist |-> hist, bad |-> Bad, mem |-> mem, bytes |-> EntryBytes, disk |-> disk]))
 ''')
         f.write("====\n")
     cfg = os.path.join(d, f"{name}_{int(exclude_known)}_{int(record)}.cfg")
